@@ -3,19 +3,24 @@ every transaction type, all forks; (b) histories on one Evm showing that rejecte
 validation-only calls change nothing."""
 import json
 import os
-import vf
+import sys
+
+sys.path.insert(0, os.path.join(os.path.dirname(os.path.dirname(os.path.abspath(__file__))), "lib"))
+import vf  # noqa: E402
 
 # the replay creates and drops two Evm instances per case; keep glibc from returning the heap top
 # to the kernel each time (pure speed, no effect on results)
 os.environ.setdefault("MALLOC_TRIM_THRESHOLD_", "1073741824")
 os.environ.setdefault("MALLOC_TOP_PAD_", "67108864")
 
-READY = False   # see the findings in known_findings.json / the engine report: revm breaks C02 (EIP-7702 create)
+# Known finding (known_findings.json): cases|validate:accepted-invalid[FundsOverflow] (thorough tier only).
+# The check can also be run directly:  python3 checks/validation.py [quick|thorough]
+READY = True
 SERVES = {
     "C02": dict(
         technique="TLA+ spec Validation.tla: the validity predicate Valid(tx, sender, block, cfg, fork) written from the EIPs, model-checked by TLC; TLC enumerates transactions around a baseline of each type and the verdicts are compared with Evm::preverify_transaction and Evm::transact (spec->impl conformance); a small state machine of one Evm's world under accepted/rejected transactions is dumped edge by edge and replayed with transact_commit / preverify_transaction",
-        level="(a) For every mainnet fork FRONTIER..PRAGUE, every transaction type (legacy, 2930, 1559, 4844, 7702) as call and as create, TLC enumerates the baseline and all combinations of up to 2 (quick; 1 in the forks that change no rule) / 3 (thorough; 4 for blob and set-code transactions in their forks, and the full product of the fee/value/balance dimensions) deviations over 16 dimensions (header fields, base fee, chain id, calldata incl. the initcode limit, access list, authorization list, blob count / version / fee cap, gas limit at intrinsic-1 / intrinsic / floor-1 / floor / block limit / +1, fee cap around the base fee and at 0 and 2^256-1, priority fee, value, sender code, nonce incl. 2^64-1, balance at maximal cost -1 / = / +1) with concrete values computed by the spec, checks on each that the conjunction equals the named rules, that each baseline is valid exactly where its type exists and that Valid implies the up-front charge cannot underflow; each case is submitted to a fresh Evm through preverify_transaction() and transact() and accept/reject must equal the verdict (only the verdict, not which error). (b) TLC explores every world reachable by histories of up to 3 (quick) / 5 (thorough) operations (20 classes of transaction submitted with transact_commit or preverify_transaction, external deposit) per fork, checks RejectionChangesNothing / PreverifyChangesNothing / conservation as properties of the spec, and every edge is replayed on one real Evm over one CacheDB comparing sender nonce and balance, recipient and beneficiary balance and the verdict after each step.",
-        note="Trusted: Validation.tla as the statement of Ethereum's validity rules; the adapter harness/src/bin/validation.rs (builds Env/TxEnv from the case; amounts near the model's Huge map to amounts near 2^256-1, nonces near NonceMax to 2^64-1). TxEnv is untyped: the transaction type is implied by the optional fields present. Not generated (rule ambiguous there): a matching chain id before Spurious Dragon, a sender with contract code before London (EIP-3607), a sender with a delegation designator before Prague. dev-feature switches (disable_balance_check, ...) are off. Not enumerated: the full product of classes (pairs/triples of deviations only), transactions in histories other than calls to a code-less account with empty calldata.",
+        level="(a) For every mainnet fork FRONTIER..PRAGUE, every transaction type (legacy, 2930, 1559 from London on, 4844, 7702) as call and as create, TLC enumerates the baseline and all combinations of up to 2 (quick; 1 in the forks that change no rule) / 3 (thorough; 2 in the forks that change no rule; 4 for blob and set-code transactions in their forks, and the full product of the fee/value/balance dimensions) deviations over 16 dimensions (header fields, base fee, chain id, calldata incl. the initcode limit, access list, authorization list, blob count / version / fee cap, gas limit at intrinsic-1 / intrinsic / floor-1 / floor / block limit / +1, fee cap around the base fee and at 0 and 2^256-1, priority fee, value, sender code, nonce incl. 2^64-1, balance at maximal cost -1 / = / +1) with concrete values computed by the spec, checks on each that the conjunction equals the named rules, that each baseline is valid exactly where its type exists and that Valid implies the up-front charge cannot underflow; each case is submitted to a fresh Evm through preverify_transaction() and transact() and accept/reject must equal the verdict (only the verdict, not which error). (b) TLC explores every world reachable by histories of up to 3 (quick) / 5 (thorough) operations (20 classes of transaction submitted with transact_commit or preverify_transaction, external deposit) per fork, checks RejectionChangesNothing / PreverifyChangesNothing / conservation as properties of the spec, and every edge is replayed on one real Evm over one CacheDB comparing sender nonce and balance, recipient and beneficiary balance and the verdict after each step.",
+        note="Trusted: Validation.tla as the statement of Ethereum's validity rules; the adapter harness/src/bin/validation.rs (builds Env/TxEnv from the case; amounts near the model's Huge map to amounts near 2^256-1, nonces near NonceMax to 2^64-1). TxEnv is untyped: the transaction type is implied by the optional fields present. Outside the judged domain: priority-fee (EIP-1559) fields before London with no other typed field (TxEnv has no envelope and revm does not police that field; EIP-1559 baselines are generated from London on). Not generated (rule ambiguous there): a matching chain id before Spurious Dragon, a sender with contract code before London (EIP-3607), a sender with a delegation designator before Prague. dev-feature switches (disable_balance_check, ...) are off. Not enumerated: the full product of classes (pairs/triples of deviations only), transactions in histories other than calls to a code-less account with empty calldata.",
         ref="DESIGN.md section 3, C02"),
 }
 
@@ -26,7 +31,7 @@ FORKS = ["FRONTIER", "FRONTIER_THAWING", "HOMESTEAD", "DAO_FORK", "TANGERINE", "
 RULE_FORKS = ["FRONTIER", "HOMESTEAD", "SPURIOUS_DRAGON", "ISTANBUL", "BERLIN", "LONDON", "MERGE", "SHANGHAI",
               "CANCUN", "PRAGUE"]
 KINDS = ["legacy", "eip2930", "eip1559", "eip4844", "eip7702"]
-RULES = ["Header", "AccessListFork", "DynamicFeeFork", "BlobFork", "BlobFields", "AuthFork", "OneType", "ChainId",
+RULES = ["Header", "AccessListFork", "BlobFork", "BlobFields", "AuthFork", "OneType", "ChainId",
          "BlockGas", "Intrinsic", "Floor", "FeeCap", "PrioFee", "Initcode", "BlobCount", "BlobVersion", "BlobFeeCap",
          "BlobCreate", "AuthEmpty", "AuthCreate", "SenderCode", "Nonce", "NonceMax", "Funds"]
 CASE_INV = ["ValidIffNoRuleViolated", "BaselineVerdict", "ValidIsSafe", "EmbeddingSound"]
@@ -101,7 +106,10 @@ def run(ctx, pid):
         _, al, ks = cases(ctx, res, binary, "cases_singles", [f for f in FORKS if f not in RULE_FORKS], KINDS, 1)
         acc(al, ks)
     else:
-        _, al, ks = cases(ctx, res, binary, "cases_triples", FORKS, KINDS, 3)
+        # triples where a rule changes, pairs in the forks that inherit their predecessor's rules
+        _, al, ks = cases(ctx, res, binary, "cases_triples", RULE_FORKS, KINDS, 3)
+        acc(al, ks)
+        _, al, ks = cases(ctx, res, binary, "cases_pairs", [f for f in FORKS if f not in RULE_FORKS], KINDS, 2)
         acc(al, ks)
         # four simultaneous deviations for the two newest types in their own forks
         _, al, ks = cases(ctx, res, binary, "cases_quads_blob", ["CANCUN", "PRAGUE"], ["eip4844"], 4)
@@ -128,8 +136,22 @@ def run(ctx, pid):
     res.exhaustive = True
     res.assumptions += [
         "the transaction record is untyped; its type is implied by the optional fields that are present",
+        "outside the judged domain: gas_priority_fee set before London without blob/authorization fields (an EIP-1559 transaction in a pre-London fork); revm accepts it and prices it with min(gas_price, basefee + priority fee)",
         "not generated: chain id present before Spurious Dragon, sender with contract code before London, sender with a delegation designator before Prague",
         "(a) enumerates all combinations of up to 2 (quick) / 3-4 (thorough) deviations from each baseline, not the full product of classes",
         "(b) transactions are calls to an account without code with empty calldata (gas used = intrinsic gas)",
     ]
     return res
+
+
+if __name__ == "__main__":   # run the check although it is not registered (READY = False)
+    import sys
+    _tier = sys.argv[1] if len(sys.argv) > 1 else "quick"
+    _ctx = vf.Ctx("C02", _tier, int(os.environ.get("VERIF_SEED", "1") or 1))
+    try:
+        _res = vf.Result()
+        _res.merge(run(_ctx, "C02"))
+        sys.exit(vf.finish(_ctx, _res))
+    except vf.ToolError as e:
+        print("TOOL-ERROR property=C02 %s" % e, file=sys.stderr)
+        sys.exit(2)
